@@ -73,6 +73,14 @@ def _run(abbr, kind, syntax, options, text, mode):
             ret = '[%d\n%s|\r\n]' % (index, placeholder)   # more lines than the placeholder has
         elif mode == 'oneline':
             ret = '${%d:%s}' % (index, ' '.join(placeholder.split()))   # fewer lines than the placeholder has
+        elif mode == 'trail-lf':
+            ret = placeholder + '\n'                    # returned text ends with a line break
+        elif mode == 'trail-crlf':
+            ret = '${%d:%s}\r\n' % (index, placeholder)
+        elif mode == 'trail-many':
+            ret = '%s\n\r\n\n' % placeholder
+        elif mode == 'lead-lf':
+            ret = '\n' + placeholder
         else:
             ret = '${%d:%s}' % (index, placeholder) if placeholder else '${%d}' % index
         calls.append(('field', (index, placeholder), ret, offset, line, column))
@@ -100,6 +108,14 @@ def check_positions(abbr, kind, syntax, options, text, mode):
     where = '%r (%s/%s, %r, text=%r, callbacks=%s) -> %r: ' % (abbr, kind, syntax, options, text, mode, final)
     if not calls and final:
         return where + 'no callback was invoked'
+    # a CR at the end of one returned string directly followed by a LF at the start of the next reads as one CRLF in
+    # the result: how many lines that is, is not defined by the statement -> nothing to check for such a run
+    prev = ''
+    for c in calls:
+        if c[2]:
+            if prev.endswith('\r') and c[2].startswith('\n'):
+                return None
+            prev = c[2]
     ends = [m.end() for m in RE_NL.finditer(final)]       # offsets at which lines 1, 2, ... of the result start
     for n, (what, args, ret, offset, line, column) in enumerate(calls):
         if not isinstance(offset, int) or not isinstance(line, int) or not isinstance(column, int):
@@ -198,13 +214,13 @@ def check_tabstops(nodes, syntax, options):
 
 # ---------------------------------------------------------------------------------------------
 
-MODES = ['tm', 'marked', 'plain', 'drop', 'empty', 'addbreak', 'oneline']
+MODES = ['tm', 'marked', 'plain', 'drop', 'empty', 'addbreak', 'oneline', 'trail-lf', 'trail-crlf', 'trail-many', 'lead-lf']
 
 
 def position_cases(rng, n_random, rows):
     modes = MODES
     for syn in MARKUP_SYNTAXES:
-        abbrs = list(MARKUP_ABBRS) + MULTILINE[:3] + (XSL_ABBRS if syn == 'xsl' else [])
+        abbrs = list(MARKUP_ABBRS) + MULTILINE[:3] + MULTILINE[9:12] + (XSL_ABBRS if syn == 'xsl' else [])
         for _ in range(n_random):
             abbrs.append(render_abbr(gen_tree(rng, depth=rng.randint(1, 3), width=3, snippets=True, xsl=syn == 'xsl', fields=rng.random() < 0.5)))
         for a in abbrs:
@@ -224,8 +240,11 @@ def position_cases(rng, n_random, rows):
 MULTILINE = [
     'p[title="${1:a\nb}"]>b', 'p{${1:a\nb}}', 'ul>li{${1:x\r\ny}}*2>b[t]', 'p{${1:a\nb} c ${2}}', 'div>p[a="${1:l1\nl2\nl3}" b]{x}',
     'p{${1:a\rb}}>i', 'p{${1:a\nb}}+p', 'div>p{${1:first line\nsecond}${2:x\ny\nz}}+b', 'p{${1:a\n\nb}t}',
+    # placeholders that end (or start) with a line break, also CRLF / CR / several
+    'p{${1:a\n}}', 'p{${1:a\r\n}}b', 'p{${1:a\r}}>i', 'p{${1:a\n\n}}+q', 'p[t="${1:\n}"]{x}', 'p{${1:\n}}>b', 'p{${1:\na}${2:b\n}c}',
+    'ul>li{${1:x\n}}*2', 'p{${1:a\r\n\r\n}}', 'div>p{t${1:a\n}}+b[c]',
 ]
-MULTILINE_CSS = ['p${1:a\nb}+m10', 'm${1:1\n2}-${2}+p']
+MULTILINE_CSS = ['p${1:a\nb}+m10', 'm${1:1\n2}-${2}+p', 'p${1:a\n}+m10', 'm${1:a\r\n}+p${2:\n}']
 
 
 def multiline_cases(rng, rows):
@@ -233,7 +252,7 @@ def multiline_cases(rng, rows):
         for syn in MARKUP_SYNTAXES:
             for mode in MODES:
                 yield (a, 'markup', syn, {}, None, mode)
-                for _ in range(rows):
+                for _ in range(max(rows // 2, 1)):
                     yield (a, 'markup', syn, random_options(rng), rng.choice(WRAP_TEXTS), mode)
     for a in MULTILINE_CSS:
         for syn in STYLE_SYNTAXES[:3]:
@@ -279,7 +298,7 @@ def run(tier, seed):
     c2 = Clause('callback-positions-multiline-placeholder', 'B',
 '%d markup and %d stylesheet abbreviations whose explicit field placeholder contains a line break, under every '
                 'callback style %r (returned text with the same, more or fewer lines than the placeholder)' % (len(MULTILINE), len(MULTILINE_CSS), MODES),
-                'all markup syntaxes x callback styles x (defaults + %d random option/wrap-text rows); 3 stylesheet syntaxes' % rows,
+                'all markup syntaxes x callback styles x (defaults + %d random option/wrap-text rows); 3 stylesheet syntaxes' % max(rows // 2, 1),
                 'as callback-positions', exhaustive=False)
     run_parallel_sorted(c2, 'bounded.c13', 'check_positions', multiline_cases(rng, rows), chunk=50)
     c2.done()
